@@ -113,6 +113,9 @@ package hash
 //@   summary result == nil ==> each(data, d, !nilfails_type(dyntype(d)) || refof(d) != 0)
 //@ spec fn nilfails_type(Int) Bool
 //@ spec fn wnofail(Iface) Bool
+// encoders that cannot return an error for a present receiver (they write into the hasher's own bytes.Buffer, whose
+// Write never fails; saferith's MarshalBinary never fails): Pedersen parameters, Paillier keys and ciphertexts, big numbers
+//@ axiom forall(d, any, ((typeis(d, *pedersen.Parameters) || typeis(d, *paillier.PublicKey) || typeis(d, *paillier.Ciphertext) || typeis(d, *saferith.Nat) || typeis(d, *saferith.Int) || typeis(d, *saferith.Modulus)) && refof(d) != 0) ==> wnofail(d))
 //@ func (*Hash).Sum
 //@   summary bval(result) == hsum(hstate(hash))
 // the digest reader is a deterministic byte stream determined by the transcript (its ghost state advances on reads)
